@@ -319,6 +319,36 @@ def run_objects(ctx):
                                   'input %r raised %r instead of ConfigError' % (obj, out.exc), wit)
 
 
+class _Text(str):
+    """A subclass of str: text like any other."""
+
+
+def run_text_subclasses(ctx):
+    """Positive control of the input-type rule: instances of str SUBCLASSES (numpy.str_, a user class) are text and are graded
+    exactly like the plain string."""
+    import numpy as np
+    rng = ctx.rng
+    F = GG.Factory(rng)
+    for i in range(ctx.n(320, 4000)):
+        case = F.any()
+        pool = case['good'] + case['partial'] + case['wrong']
+        inp = rng.choice(pool)
+        conv = rng.choice([np.str_, _Text])
+        sub = [conv(x) for x in inp] if isinstance(inp, list) else conv(inp)
+        expect = 'cat' if case.get('needs_expect') else None
+        ctx.seed_case('textsub', i)
+        plain = lib.call(ctx, case['make'](debug=False), expect, list(inp) if isinstance(inp, list) else inp)
+        ctx.seed_case('textsub', i)
+        out = lib.call(ctx, case['make'](debug=False), expect, sub)
+        ctx.ev()
+        ctx.count('calls')
+        ctx.count('text_subclass_inputs')
+        wit = {'grader': case['desc'], 'input': inp, 'given_as': conv.__name__, 'plain_outcome': plain.brief(), 'outcome': out.brief()}
+        ctx.nontrivial(['textsub', case['cls'], repr(inp)[:50], conv.__name__])
+        if plain.brief() != out.brief():
+            ctx.violation('C02:%s:text_subclass_input_treated_differently' % case['cls'], 'plain str: %r; %s: %r' % (plain.brief(), conv.__name__, out.brief()), wit)
+
+
 def run_table(ctx):
     import mitxgraders as M
     rng = ctx.rng
@@ -408,5 +438,6 @@ def run(ctx):
     if ctx.inconclusive:
         return
     run_objects(ctx)
+    run_text_subclasses(ctx)
     run_table(ctx)
     ctx.count('distinct_inner_foreign_classes', len([k for k in ctx.counters if k.startswith('inner_foreign:')]))
